@@ -140,18 +140,25 @@ StepSeq(ax, t, x) == IF ax \in ReverseAxes THEN DescSeq(StepSet(ax, t, x))
                                            ELSE AscSeq(StepSet(ax, t, x))
 
 (* Predicates, evaluated with the focus (node, position, size) *)
-AllPreds == {"1", "2", "last()", "position()<2", "b", "@a", "not(b)", "text()"}
+AllPreds == {"1", "2", "last()", "position()<2", "position()<3", "b", "@a", "not(b)", "text()"}
 PredHolds(pr, n, pos, size) ==
   CASE pr = "1" -> pos = 1
     [] pr = "2" -> pos = 2
     [] pr = "last()" -> pos = size
     [] pr = "position()<2" -> pos < 2
+    [] pr = "position()<3" -> pos < 3
     [] pr = "b"  -> \E m \in Kids(n) : KindOf(m) = "eb"
     [] pr = "@a" -> \E m \in Atts(n) : KindOf(m) = "xa"
     [] pr = "not(b)" -> ~ \E m \in Kids(n) : KindOf(m) = "eb"
     [] pr = "text()" -> \E m \in Kids(n) : KindOf(m) = "t"
 
 FilterSeq(s, pr) == {s[i] : i \in {j \in 1..Len(s) : PredHolds(pr, s[j], j, Len(s))}}
+(* the same as a SEQUENCE (order kept): a step with several predicates applies them in turn, and
+   each one numbers the survivors of the previous one again ALONG THE AXIS (XPath 1.0 2.4, 2.0 3.2.2) *)
+RECURSIVE KeepFrom(_, _, _, _)
+KeepFrom(s, pr, i, n) == IF i > n THEN <<>>
+                         ELSE (IF PredHolds(pr, s[i], i, n) THEN <<s[i]>> ELSE <<>>) \o KeepFrom(s, pr, i + 1, n)
+KeepSeq(s, pr) == KeepFrom(s, pr, 1, Len(s))
 
 (* Algebraic laws of the axes (checked by TLC as invariants of the tree universe) *)
 RealNodes == IF HasDoc THEN 0..N ELSE 1..N   \* the virtual document of R2 is not part of the tree
